@@ -199,7 +199,8 @@ def first_output_diff(ref, got):
 # ----------------------------------------------------------------------
 
 def run_main(spec, root, fs_plan=None, pool_plan=None, clock_jumps=None,
-             parallel=False, n_cpu=None, sim_plan=None, render=True):
+             parallel=False, n_cpu=None, sim_plan=None, render=True,
+             relative=False):
     """dassh.__main__.main([...]) under the environment seams.
     returns (outcome, fs) with outcome in ok|exit|crash|deadlock|error:<T>"""
     import dassh.__main__ as dmain
@@ -221,6 +222,11 @@ def run_main(spec, root, fs_plan=None, pool_plan=None, clock_jumps=None,
     S = sim.Sim(plan=sim_plan)
     out = io.StringIO()
     outcome = 'ok'
+    cwd0 = os.getcwd()
+    if relative:
+        # the way a user starts it: from the case directory, input by name
+        os.chdir(root)
+        path = os.path.basename(path)
     with S, fs:
         try:
             with contextlib.redirect_stdout(out), \
@@ -238,6 +244,7 @@ def run_main(spec, root, fs_plan=None, pool_plan=None, clock_jumps=None,
             c = sim.Crashed(e)
             outcome = f'error:{c.etype}@{c.site}'
         finally:
+            os.chdir(cwd0)
             dassh.logged_class.shutdown_logger('dassh')
             sim.quiet_logging()
     fs.sim = S
@@ -445,8 +452,11 @@ class C16(Prop):
         if ntp > 1:
             with sim.scratch_dir() as d1:
                 pp = dict(case['pool'])
+                rel = rng.h64('c16.relative', case['seed']) % 2 == 0
+                if rel:
+                    res['probes']['c16.relative_input_path'] = 1
                 oc, fs1 = run_main(spec, d1, pool_plan=pp, parallel=True,
-                                   n_cpu=pp.get('n_cpu'))
+                                   n_cpu=pp.get('n_cpu'), relative=rel)
                 bump(fs1)
                 res['executions'] += 1
                 res['probes']['c16.pool_run'] = 1
